@@ -23,6 +23,7 @@ import (
 //   Q <allof|anyof> <fw> <nent> (id nroles roles..).. <nvals> vals.. <nops> ops..
 //   B <ro|rw> <nkeys> keys.. <nops> bops..                       raw bbolt cursor, bops = F L N P S<hex>
 //   R .. / S ..                                                  re-opened cursors and scans: c14_reuse.go
+//   I ..                                                         scanners layered over cursors (IterateIds ..): c14_scan.go
 // Observation line: one token per observation point (after the constructor and after every op):
 //   I (invalid) | V<hex> (valid, Current) | P (panic; everything after is P too)
 // for B lines: the key returned by each op, I for nil.
@@ -357,6 +358,10 @@ func runC14(o *opts) error {
 		return err
 	}
 	if err := c14Queries(dir, out, r, worlds); err != nil {
+		return err
+	}
+	// scanners layered over cursors: IterateIds / IterateValidIds / QueryWithCursorC (c14_scan.go)
+	if err := c14Scan(dir, out, o.thorough()); err != nil {
 		return err
 	}
 	// re-opened cursors (c14_reuse.go); last, because a query that hangs keeps its transaction for ever
@@ -938,6 +943,8 @@ func c14Replay(dir string, out *c14Out, line string) error {
 	switch next() {
 	case "R", "S":
 		return c14ReplayReuse(sub, out, line)
+	case "I":
+		return c14ReplayScan(sub, out, line)
 	case "B":
 		mode := next()
 		keys := readSet()
